@@ -405,7 +405,7 @@ class AbstractDateTime(AnyAtomicType):
             msg = '2nd argument has an invalid type {!r}'
             raise TypeError(msg.format(type(tzinfo)))
 
-        match = cls.pattern.match(datetime_string.strip())
+        match = cls.pattern.match(datetime_string.strip(' \t\n\r'))
         if match is None:
             msg = 'Invalid datetime string {!r} for {!r}'
             raise ValueError(msg.format(datetime_string, cls))
@@ -1085,7 +1085,7 @@ class Duration(AnyAtomicType):
             msg = 'argument has an invalid type {!r}'
             raise TypeError(msg.format(type(text)))
 
-        match = cls.pattern.match(text.strip())
+        match = cls.pattern.match(text.strip(' \t\n\r'))
         if match is None:
             raise ValueError('%r is not an xs:duration value' % text)
 
